@@ -458,6 +458,20 @@ def r20_6_shared(repo: Repo, rep: Report):
     r09_1_snapshot_restore(repo, rep)
 
 
+def r20_8_no_aliasing_assignment(repo: Repo, rep: Report):
+    rep.rule("R20.8", "no chained assignment binds one fresh mutable object to two places (two state components would alias)")
+    n = 0
+    for m in repo.modules.values():
+        for node in ast.walk(m.tree):
+            if isinstance(node, ast.Assign) and len(node.targets) >= 2:
+                n += 1
+                v = node.value
+                immutable = isinstance(v, ast.Constant) or (isinstance(v, ast.UnaryOp) and isinstance(v.operand, ast.Constant)) or (isinstance(v, ast.Name) and v.id in ("None", "True", "False")) or (isinstance(v, ast.Tuple) and all(isinstance(e, ast.Constant) for e in v.elts))
+                stateful = any(isinstance(t, (ast.Attribute, ast.Subscript)) for t in node.targets)
+                rep.check("R20.8", immutable or not stateful, m, node, src(node)[:120], "the same object is stored in two places: a write through one is visible through the other (e.g. persistent and transient storage of a new account, or the state of two paths)")
+    rep.ok("R20.8", repo.mod("sevm"), repo.mod("sevm").tree, f"chained assignments in the package: {n}")
+
+
 def r20_7_shared(repo: Repo, rep: Report):
     """the configuration of one test must not leak into the next: per-function layers are built from the contract's
     configuration, never from the previous function's (shared with C18 R18.4)"""
@@ -466,4 +480,4 @@ def r20_7_shared(repo: Repo, rep: Report):
     r18_4_scoping(repo, rep)
 
 
-RULES = [r20_7_shared, r20_6_shared, r20_0_no_dynamic_features, r20_1_fork_copies, r20_2_inactive_paths, r20_3_fresh_per_test, r20_4_process_wide_state, r20_5_uid_nominal]
+RULES = [r20_8_no_aliasing_assignment, r20_7_shared, r20_6_shared, r20_0_no_dynamic_features, r20_1_fork_copies, r20_2_inactive_paths, r20_3_fresh_per_test, r20_4_process_wide_state, r20_5_uid_nominal]
